@@ -1450,10 +1450,10 @@ fn final_reordering_impl(
 
                         break;
                     }
+                }
 
-                    if base == end {
-                        break;
-                    }
+                if base == end {
+                    break;
                 }
             }
 
